@@ -52,6 +52,19 @@ def run_shard(args):
         for t, l in X.shard_strings(R.CHAR_SIGMA, n, shard):
             texts.append((t, 'exec', 'chars len=%d' % l))
             texts.append((t, 'eval', 'chars len=%d' % l))
+    elif kind == 'sites':
+        # every physical-line rewrite of C08 (explicit line joins outside brackets, line breaks inside brackets, inserted blank/comment lines) of the
+        # sentences below the bound: the full-lexer build tokenises what the default build skips
+        from . import c08
+        _, paths, d = args
+        texts = []
+        seen = set()
+        for path in paths:
+            for toks, cost in K.sentences(path, d, 'file'):
+                for k, v in c08.variants(toks, True, layouts=[]):
+                    if v not in seen and k.split(':')[0] in ('line-join', 'in-bracket-break', 'insert-line', 'line-end', 'unterminated-last-line'):
+                        seen.add(v)
+                        texts.append((v, 'exec', 'site rewrite cost=%d' % cost))
     elif kind == 'fstr':
         texts = [(t, 'exec', 'f-string product') for t in K.fstring_product(args[1])] + [(t, m, 'f-string fields with line breaks/comments') for t in FIELD_NL for m in ('exec', 'eval')]
     elif kind in ('layout', 'lex'):
@@ -111,6 +124,7 @@ def run(tier, seed):
     jobs = [('corpus', g, d) for g in K.group_shards(K.shards_for(d, 'file'), 400 if tier == 'thorough' else 64)]
     n = 3 if tier == 'quick' else 4
     jobs += [('chars', n, s) for s in X.prefix_shards(R.CHAR_SIGMA, n, 1 if tier == 'quick' else 2)]
+    jobs += [('sites', g, d - 1) for g in K.group_shards(K.shards_for(d - 1, 'file'), 64)]
     jobs.append(('fstr', 2 if tier == 'quick' else 3))
     ll = 4 if tier == 'quick' else 5
     jobs += [('layout', ll, s) for s in X.prefix_shards(R.LAYOUT_LEX, ll, 1)]
@@ -126,7 +140,7 @@ def run(tier, seed):
     total.states = len(allh)
     total.nontrivial = total.validated
     rule = ('texts: every G_ref sentence with <=%d non-default alternatives under layouts %s; every string of length<=%d over %r (module and expression mode); every string of '
-            'length<=%d over the number alphabet %r; the f-string concatenation product and fields with line breaks/comments; every concatenation of <=%d layout lexemes and <=%d lexemes of '
+            'length<=%d over the number alphabet %r; the f-string concatenation product and fields with line breaks/comments; every line-join / in-bracket-break / inserted-line rewrite of the sentences one level below the bound; every concatenation of <=%d layout lexemes and <=%d lexemes of '
             'the C01 lexeme alphabet; each parsed by the four builds (and lexed by default/full-lexer): pairwise comparison with the default build (verbatim for '
             'full-lexer and num-bigint, modulo ranges that are () in the default build for all-nodes; full-lexer tokens minus Comment/NonLogicalNewline == default tokens); '
             'states = distinct (mode, text), transitions = pairwise comparisons' % (d, LAYOUTS, n, ''.join(R.CHAR_SIGMA), nn, ''.join(NUM_SIGMA), ll, lx))
